@@ -179,19 +179,19 @@ macro_rules! update_msk_err_contract {
                 omega.insert(r1.clone(), (hint(false), status(kani::any())));
                 if !$bad_first { omega.insert(r4.clone(), (hint(false), status(false))); }
                 let e = err_kind(update_msk(&mut rng, &mut msk, omega));
-                assert!(e == E_NOT_PERMITTED, "C09: adding a right that is born disabled is refused (OperationNotPermitted)");
+                assert!(e == E_NOT_PERMITTED, "C06/C09: adding a right that is born disabled is refused (OperationNotPermitted): it never receives an activated secret, hence no public key");
                 assert!(msk.secrets.len() == 2, "C10: a failed update loses no right");
                 assert!(mchain(&msk, &r1) == [Some((a1, classic(x1))), None, None, None], "C10: a failed update leaves every secret and flag untouched");
                 assert!(mchain(&msk, &r2) == [Some((a2, classic(x2))), None, None, None], "C10: a failed update removes nothing");
-                assert!(!msk.secrets.contains_key(&r4), "C10: a failed update adds nothing");
+                assert!(!msk.secrets.contains_key(&r4), "C06/C10: a failed update adds nothing (in particular no activated secret for a right involving a disabled attribute)");
                 std::mem::forget(msk);
             }
         }
     };
 }
-// @obl props=C09,C10 tier=quick class=bounded fn=core::primitives::update_msk shape="2 rights; omega = {born-disabled new, kept}"
+// @obl props=C06,C09,C10 tier=quick class=bounded fn=core::primitives::update_msk shape="2 rights; omega = {born-disabled new, kept}"
 update_msk_err_contract!(update_msk__err_born_disabled_first, true);
-// @obl props=C09,C10 tier=quick class=bounded fn=core::primitives::update_msk shape="2 rights; omega = {kept, born-disabled new}"
+// @obl props=C06,C09,C10 tier=quick class=bounded fn=core::primitives::update_msk shape="2 rights; omega = {kept, born-disabled new}"
 update_msk_err_contract!(update_msk__err_born_disabled_last, false);
 
 // ---------------------------------------------------------------------------
